@@ -708,3 +708,31 @@ class State:
 
 
 register_class("$", {"alloc": BOOL}, kind="env")
+
+
+def forall(vs, body, patterns=None):
+    """z3.ForAll with the given patterns where z3 accepts them (terms containing ite / store are not valid patterns:
+    then the solver chooses its own)"""
+    if patterns and all(_pattern_ok(p) for p in patterns):
+        try:
+            return z3.ForAll(vs, body, patterns=patterns)
+        except z3.Z3Exception:
+            pass
+    return z3.ForAll(vs, body)
+
+
+_BAD_IN_PATTERN = {z3.Z3_OP_ITE, z3.Z3_OP_AND, z3.Z3_OP_OR, z3.Z3_OP_NOT, z3.Z3_OP_DISTINCT, z3.Z3_OP_EQ, z3.Z3_OP_IMPLIES}
+
+
+def _pattern_ok(t):
+    seen, todo = set(), [t]
+    while todo:
+        x = todo.pop()
+        if x.get_id() in seen:
+            continue
+        seen.add(x.get_id())
+        if z3.is_app(x):
+            if x.decl().kind() in _BAD_IN_PATTERN:
+                return False
+            todo.extend(x.children())
+    return True
